@@ -183,7 +183,7 @@ const DOMAIN_LABELS: [&str; 16] = [
     "lllllllllllllllllllllllllllllllllllllllllllllllllllllllllllllll", "com",
 ];
 
-fn domain_strategy() -> impl Strategy<Value = String> {
+fn representable_domain_strategy() -> impl Strategy<Value = String> {
     proptest::collection::vec(any::<u16>(), 1..=8).prop_map(|v| {
         let mut labels: Vec<&str> = v.iter().map(|i| DOMAIN_LABELS[pick_idx(*i, DOMAIN_LABELS.len())]).collect();
         // a domain name is at most 255 octets on the wire
@@ -192,6 +192,56 @@ fn domain_strategy() -> impl Strategy<Value = String> {
         }
         labels.join(".")
     })
+}
+
+/// RFC 1035 section 2.3.4 / 3.1: labels of 1..63 octets, at most 255 octets on the wire.
+pub fn domain_representable(d: &str) -> bool {
+    d.split('.').all(|l| (1..=63).contains(&l.len())) && d.split('.').map(|l| l.len() + 1).sum::<usize>() + 1 <= 255
+}
+
+/// Octets a search list occupies in the option body (names, padded to 8); the length field is
+/// one octet in units of 8, so option (8 header octets + this) must stay within 255 * 8.
+pub fn dnssl_body_len(domains: &[String]) -> usize {
+    let n: usize = domains.iter().map(|d| d.split('.').map(|l| l.len() + 1).sum::<usize>() + 1).sum();
+    n.div_ceil(8) * 8
+}
+
+fn domain_strategy() -> impl Strategy<Value = String> {
+    prop_oneof![
+        30 => representable_domain_strategy(),
+        // a label the 6-bit length cannot carry (64 reads as an unknown label type, 192 as a
+        // compression pointer, 256 wraps to 0)
+        2 => (prop_oneof![Just(64usize), Just(65), Just(127), Just(128), Just(191), Just(192), Just(255), Just(256), Just(257), Just(300), 64usize..400], 0usize..3, any::<u16>())
+            .prop_map(|(n, pos, tail)| {
+                let mut labels: Vec<String> = vec!["x".repeat(n)];
+                let t = DOMAIN_LABELS[pick_idx(tail, 14)].to_string();
+                if pos == 0 { labels.push(t) } else if pos == 1 { labels.insert(0, t) }
+                labels.join(".")
+            }),
+        // every label fits, the name does not (more than 255 octets)
+        1 => (4usize..=7, 1usize..=63).prop_map(|(k, last)| {
+            let mut labels: Vec<String> = (0..k).map(|i| ((b'a' + i as u8) as char).to_string().repeat(63)).collect();
+            labels.push("z".repeat(last));
+            labels.join(".")
+        }),
+        // long but representable: 3 x 63 + tail (up to 255 octets on the wire)
+        2 => (1usize..=61, any::<u8>()).prop_map(|(last, c)| {
+            let mut labels: Vec<String> = (0..3).map(|i| ((b'a' + (c.wrapping_add(i) % 26)) as char).to_string().repeat(63)).collect();
+            labels.push("q".repeat(last));
+            labels.join(".")
+        }),
+    ]
+}
+
+fn long_domain_list() -> impl Strategy<Value = Vec<String>> {
+    proptest::collection::vec(
+        (56usize..=61, any::<u8>()).prop_map(|(last, c)| {
+            let mut labels: Vec<String> = (0..3).map(|i| ((b'a' + (c.wrapping_add(i) % 26)) as char).to_string().repeat(63)).collect();
+            labels.push("q".repeat(last));
+            labels.join(".")
+        }),
+        7..=10,
+    )
 }
 
 fn url_strategy() -> impl Strategy<Value = String> {
@@ -223,7 +273,7 @@ fn iface_strategy() -> impl Strategy<Value = IfaceSpec> {
     let addr6 = prop_oneof![1 => Just(Addr6::SelfAddr), 3 => ip6_strategy().prop_map(Addr6::Ip)];
     let rdnss = (tri(proptest::collection::vec(addr6, 0..=8)), tri(dur_strategy()))
         .prop_map(|(addresses, lifetime)| RdnssSpec { addresses, lifetime });
-    let dnssl = (tri(proptest::collection::vec(domain_strategy(), 0..=5)), tri(dur_strategy()))
+    let dnssl = (tri(prop_oneof![24 => proptest::collection::vec(domain_strategy(), 0..=5), 1 => long_domain_list()]), tri(dur_strategy()))
         .prop_map(|(domains, lifetime)| DnsslSpec { domains, lifetime });
     let pref64 = (
         ip6_strategy(),
@@ -496,6 +546,26 @@ impl Prop for C17Build {
                 unrepresentable = true;
             }
         }
+        // an unrepresentable name may be refused by the loader wherever it is configured
+        let all_domains = i
+            .dnssl
+            .as_ref()
+            .and_then(|d| d.domains.val().cloned())
+            .unwrap_or_default()
+            .into_iter()
+            .chain(c.top_search.clone().unwrap_or_default());
+        for d in all_domains {
+            if !domain_representable(&d) {
+                unrepresentable = true;
+                out.class("search-domain-not-representable");
+            }
+        }
+        if let Some(w) = effective_search_list(c) {
+            if 8 + dnssl_body_len(&w.into_iter().filter(|d| domain_representable(d)).collect::<Vec<_>>()) > 255 * 8 {
+                unrepresentable = true;
+                out.class("search-list-longer-than-the-option-can-be");
+            }
+        }
         if unrepresentable {
             out.class("has-unrepresentable-value");
         }
@@ -561,6 +631,15 @@ impl Prop for C17Build {
 }
 
 /// Compare a decoded RA with what the configuration says (shared by the function and wire tiers).
+/// The search list configured for the interface: its own, else the top-level one; None = `null`.
+pub fn effective_search_list(c: &RaCase) -> Option<Vec<String>> {
+    match c.iface.dnssl.as_ref().map(|d| &d.domains) {
+        Some(Tri::Val(v)) => Some(v.clone()),
+        Some(Tri::Null) => None,
+        _ => Some(c.top_search.clone().unwrap_or_default()),
+    }
+}
+
 pub fn judge_ra(c: &RaCase, mtu_param: Option<u32>, ra: &Ra, unrepresentable: bool, out: &mut Outcome) {
     let i = &c.iface;
     // ---- header
@@ -713,23 +792,38 @@ pub fn judge_ra(c: &RaCase, mtu_param: Option<u32>, ra: &Ra, unrepresentable: bo
         }
     }
     // DNSSL
-    let want_domains: Option<Vec<String>> = match i.dnssl.as_ref().map(|d| &d.domains) {
-        Some(Tri::Val(v)) => Some(v.clone()),
-        Some(Tri::Null) => None,
-        _ => Some(c.top_search.clone().unwrap_or_default()),
-    };
+    let configured_domains = effective_search_list(c);
+    // names the wire format cannot carry are "rejected": the list without them is expected
+    let want_domains: Option<Vec<String>> =
+        configured_domains.as_ref().map(|w| w.iter().filter(|d| domain_representable(d)).cloned().collect());
+    let list_too_long = want_domains.as_ref().map(|w| 8 + dnssl_body_len(w) > 255 * 8).unwrap_or(false);
     let got_d: Vec<&NdOpt> = ra.options.iter().filter(|o| matches!(o, NdOpt::Dnssl { .. })).collect();
     match (&want_domains, got_d.as_slice()) {
         (None, []) => {}
         (Some(w), []) if w.is_empty() => {}
+        // a list the one-octet option length cannot carry may be refused as a whole ...
+        (Some(_), []) if list_too_long => {}
         (Some(w), [NdOpt::Dnssl { reserved, lifetime, domains }]) => {
             if *reserved != 0 {
                 out.fail("C17:reserved:dnssl", "");
                 return;
             }
             let wl: Vec<Vec<Vec<u8>>> = w.iter().map(|d| d.split('.').map(|l| l.as_bytes().to_vec()).collect()).collect();
-            if *domains != wl {
-                out.fail("C17:value:dnssl-domains", format!("{:?} vs {:?}", domains, w));
+            if list_too_long {
+                // ... or clamped to names of the configured list, in order
+                let mut it = wl.iter();
+                if !domains.iter().all(|d| it.any(|x| x == d)) || domains.is_empty() {
+                    out.fail(
+                        "C17:value:dnssl-overlong-list",
+                        format!("{} names configured ({} octets); the option carries {:?}", w.len(), dnssl_body_len(w), domains.iter().map(|d| d.len()).collect::<Vec<_>>()),
+                    );
+                    return;
+                }
+            } else if *domains != wl {
+                out.fail(
+                    "C17:value:dnssl-domains",
+                    format!("{:?} vs {:?}", domains.iter().map(|d| d.iter().map(|l| String::from_utf8_lossy(l).to_string()).collect::<Vec<_>>().join(".")).collect::<Vec<_>>(), w),
+                );
                 return;
             }
             match i.dnssl.as_ref().and_then(|r| r.lifetime.val()) {
